@@ -11,13 +11,13 @@ CHECKS = {
          "Trusted: the harness ledger and identity rule; H2 time-shift equivalence (pool only compares stored times with now); SQLite. Server-internal task interleaving is not enumerated; it is exercised by the wire-race tier of the same command (2..32 clients racing in bursts of back-to-back frames for a pool of 1..6 addresses against the real erbium-dhcp; oracle: address -> client is a function over all captured OFFER/ACK frames and agrees with the store; needs namespaces).", "3/C01"),
  "C09": ("HIST", "model-based property testing: pre/post-state relation on the observed lease table over generated histories", "exploration",
          "For every generated step the reply satisfies the keep-your-address relation computed from the lease table observed before the call; refusals only when every pool address is held unexpired by someone else.",
-         "Trusted: harness reading of the table via get_leases; clock-edge steps (row within 1 s of now) are skipped and counted.", "3/C09"),
+         "Trusted: harness reading of the table via get_leases. In the second in which a lease expires only the reading-independent part is judged (a refusal needs every pool address held by another client whose lease may still be running); a message naming two different addresses (ciaddr and option 50) names neither. The same command enumerates pools of 1..150 addresses (thorough: every size to 200) with every address but one held, over every position of the free address.", "3/C09"),
  "C10": ("HIST", "property testing over generated histories: bounds + reply/record relation", "exploration",
          "Every successful reply in every generated history carries option 51 within [300,86400] and the stored row runs exactly that long and does not expire early.",
-         "Bounds are the tree's defaults (the config keys that would change them are parsed but unused). The same command also captures OFFER/ACK frames from the real erbium-dhcp over a veth pair and compares option 51 with the database row (wire tier; needs namespaces).", "3/C10"),
+         "Bounds are the tree's defaults (the config keys that would change them are parsed but unused). A third of the generated requests carry the client's own lease-time wish on either side of the bounds. A second sub-check runs generated policy trees whose apply-* options include lease-time (value / null / values on both sides of the bounds) against parameter lists with and without 51. The same command also captures OFFER/ACK frames from the real erbium-dhcp over a veth pair and compares option 51 with the database row (wire tier; needs namespaces).", "3/C10"),
  "C13": ("HIST", "property testing: frame condition (table before == after unless replied) over generated messages of every type", "exploration",
          "For every generated message of any type / server-id kind on generated lease states: no reply => table unchanged; reply => only for DISCOVER/REQUEST meant for us, only the yiaddr row touched, header echoed, server-id ours.",
-         "Malformed server-id lengths and server-id inside DISCOVER are unconstrained (statement silent).", "3/C13"),
+         "Malformed server-id lengths and server-id inside DISCOVER are unconstrained (statement silent). A second sub-check runs generated policy trees (apply-server-id as address / null, option values up to the longest an option can carry) against requests with parameter lists of any codes and a maximum message size (option 57): every reply carries a server identifier naming this server, and a message that is not answered leaves the store unchanged.", "3/C13"),
  "C18": ("HIST", "differential property testing (interrupted vs uninterrupted twin) + generated old-schema databases + fault injection at enumerated crash points (SIGKILL at every write-like call on the database file and its journal, via strace) and at sampled kill instants on the wire", "fault_enumeration",
          "Reopen at generated split points of generated histories is indistinguishable from an uninterrupted twin; generated v0/v1 databases keep all rows, newer versions are refused unmodified.",
          "Enumerated completely: the crash points between write-like system calls on the database file and its rollback journal for a few scripted allocation sequences, from the moment the file is opened (quick 3 scripts / about 90 points, thorough 6). Sampled: reopen points in generated histories, SIGKILL instants (quick 12, thorough 300) against the real erbium-dhcp on the wire. Not simulated: torn writes inside one write call, loss of unsynced data (power failure). The crash-points tier needs strace/ptrace; where that is refused it is recorded as unavailable.", "3/C18"),
@@ -30,7 +30,7 @@ CHECKS = {
          "Trusted: the harness's RFC 2131/3396 codec and frame decoder (written from the RFCs). The on-the-wire destination choice (broadcast iff bit 15, else yiaddr; Ethernet destination = chaddr) is decided by the wire tier of the same command on frames captured from the real erbium-dhcp (sampled flag values).", "3/C12"),
  "C14": ("CODEC", "round-trip property testing over generated structured DNS messages and mutated encodings, differential against an independent RFC 1035/6891 decoder with pointer audit", "exploration",
          "Every generated message (to 2000 records / 65535 octets, shared suffixes at every depth, all rdata kinds, EDNS options) re-decodes to itself with the crate parser and field-by-field (RFC bit positions) with an independent decoder; every compression pointer targets an earlier offset below 0x4000; accepted byte inputs re-encode to an equal message.",
-         "Trusted: the harness's RFC 1035 decoder/encoder. Inputs whose RDLENGTH disagrees with name-bearing rdata are skipped (counted).", "3/C14"),
+         "Trusted: the harness's RFC 1035 decoder/encoder. Byte inputs include several OPT records in any section, records of name-bearing types with RDLENGTH 0, names assembled through pointer chains past 255 octets, and the committed corpus (every past failure). Where the harness decoder and erbium's model of a message disagree on what the input is (several OPT records, questions != 1) only the crate-level round trip is judged (counted). The thorough tier adds a libFuzzer campaign with the same oracle inside the target.", "3/C14"),
  "C04": ("CODEC", "property testing of size-limited serialisation with an independent decoder as validity predicate; limits placed at every record boundary +-2", "exploration",
          "For generated messages and limits: output <= limit, identical to the full encoding when that fits, otherwise TC set and a proper whole-record prefix that an independent decoder accepts with matching counts.",
          "Function tier decides the serialiser; the per-transport choice (UDP vs TCP) is glue inside the service loops and is decided by the wire tier (same command; needs the private network namespace).", "3/C04"),
@@ -42,7 +42,7 @@ CHECKS = {
          "H3 drives calculate_expiry/insert/get_entry/expire in handle_query order; the class bypass and header-bit extraction of the key live in handle_query/parser and are decided by the wire tier of the same command (near-miss keys and timed re-queries against the real erbium-dns).", "3/C06"),
  "C16": ("CODEC(hook)", "property testing of the token bucket on a harness clock with black-box inferred constants; window-bound invariant + idle liveness", "exploration",
          "With burst and rate inferred black-box, every window of every generated arrival sequence stays within B + R*span and an idle bucket grants any request up to B.",
-         "The bucket is decided exactly; the two-bucket limiter, reply pricing and cookie exemption are private glue decided by the wire tier of the same command (quiet source, bursts, cookie matrix) without numeric B and R. Key rotation is not covered.", "3/C16"),
+         "The bucket is decided exactly; the two-bucket limiter, reply pricing and cookie exemption are private glue decided by the wire tier of the same command (a 35 s steady flood, quiet sources, bursts spread over source ports, a second burst, a cookie matrix of twelve variants incl. guessable keys and truncated server parts, all 256 one-octet server parts) against the documented constants (two buckets of 1000 tokens, 2 tokens/s, at least 200 per REFUSED). Key rotation (24-36 h) is not covered.", "3/C16"),
  "C17": ("CONF+CODEC", "model-based property testing: generated interface configurations through the real loader and builder, decoded by an RFC 4861/8106/8781/8910 decoder and compared with expected(config)", "exploration",
          "Every generated interface section (tri-state fields, boundary lifetimes in four spellings, prefixes of any length with host bits, RDNSS/DNSSL/PREF64/captive portal, top-level defaults) yields an RA that an independent RFC decoder reads back as exactly the configured values; reserved fields zero; unrepresentable values rejected or clamped, never wrapped.",
          "Trusted: the harness's RFC decoder and expectation model; yaml-rust's emitter (cases whose emitted text does not re-parse to the intended tree are skipped and counted). The mtu/lifetime tri-state resolution lives in the impure wrapper and is decided by the wire tier of the same command: nine combinations through the real erbium (router solicitation injected, advertisement captured, hop limit 255 and ICMPv6 checksum verified).", "3/C17"),
@@ -57,7 +57,7 @@ CHECKS = {
          "Function tier decides acl::require_permission and prefix containment. The wire tier of the same command decides the DNS entry point on the real erbium-dns (refused => REFUSED, never forwarded, never served from cache). The HTTP endpoints are decided by a second wire tier on the full erbium binary over a veth pair (TCP/IPv4 seen as mapped, TCP/IPv6, unix socket with bound and unbound clients; 200 vs 403 per endpoint).", "3/C08"),
  "C11": ("CONF", "model-based property testing: generated policy trees and requests through the real loader and handle_pkt; independent model of the manual's option semantics", "exploration",
          "For every generated policy tree, top-level defaults and request, the reply's options equal the model (sibling order, condition-less policies, outer-then-inner override, null unsets, parameter-list gating, defaults with $self4, MTU/router, netmask/broadcast) as a map code -> bytes.",
-         "Trusted: the harness's model of erbium.conf(5) and RFC 2132 encodings for the 20 options generated. Unconstrained: netmask/broadcast with two different matching subnets; empty lists; relayed requests and match-interface are not generated.", "3/C11"),
+         "Trusted: the harness's model of erbium.conf(5) and RFC 2132 encodings for the 22 options generated. Parameter lists draw any code 1..254; hardware addresses of 5, 6, 8 and 16 octets; the order of keys in every mapping is varied. Unconstrained: netmask/broadcast with two different matching subnets; empty lists; relayed requests and match-interface are not generated.", "3/C11"),
  "C03": ("WIRE-DNS", "differential property testing on the wire: generated queries and upstream replies through the real erbium-dns with a scripted upstream; independent RFC 1035 decoder on both sides", "exploration",
          "For every generated (query, upstream reply) pair the response that reaches the client carries the client's id and question, QR, the upstream's rcode and the upstream's three sections record by record (TTL equal, or aged within bounds when served from cache).",
          "Trusted: harness decoder/encoder, scripted upstream. TCP-path cases are run one at a time (concurrency on the upstream TCP connection belongs to C07); a relayed REFUSED may be silenced by the UDP rate limiter (counted). Needs the private network namespace.", "3/C03"),
